@@ -171,7 +171,11 @@ class StubCM:
         return False
 
 
-def _code_objects(mod, skip=()):
+SWEEP_ONLY = ("LinearSweepAlgorithm", "DCode", "PackedSwitch", "SparseSwitch", "FillArrayData", "get_instruction",
+              "get_optimized_instruction", "get_instruction_payload")
+
+
+def _code_objects(mod, skip=(), only=None):
     out = []
 
     def walk(co):
@@ -180,6 +184,8 @@ def _code_objects(mod, skip=()):
             if isinstance(c, types.CodeType):
                 walk(c)
     for obj in vars(mod).values():
+        if only is not None and getattr(obj, "__name__", None) not in only:
+            continue
         if isinstance(obj, types.FunctionType) and obj.__module__ == mod.__name__:
             walk(obj.__code__)
         elif isinstance(obj, type) and obj.__module__ == mod.__name__ and obj.__name__ not in skip:
@@ -200,7 +206,7 @@ class BudgetSession:
     exception, same verdicts; the counter is reset per case."""
     OFF = 1 << 62
 
-    def __init__(self, dex):
+    def __init__(self, dex, only=None):
         mon = sys.monitoring
         ev = mon.events
         try:
@@ -210,10 +216,13 @@ class BudgetSession:
             mon.use_tool_id(TOOL, "verif-budget")
         self.count = 0
         self.limit = self.OFF
+        self.second_attempts = 0
         self.mask = ev.PY_START | ev.JUMP | ev.BRANCH
         for e in (ev.PY_START, ev.JUMP, ev.BRANCH):
             mon.register_callback(TOOL, e, self._tick)
-        self.cos = _code_objects(dex, skip=("DCode",))
+        # only=SWEEP_ONLY (via-DEX shards): just the sweep, the payload classes and DCode, so that loading the generated
+        # DEX files is not slowed down; otherwise everything except DCode
+        self.cos = _code_objects(dex, skip=() if only else ("DCode",), only=only)
         for co in self.cos:
             mon.set_local_events(TOOL, co, self.mask)
 
@@ -227,6 +236,16 @@ class BudgetSession:
         if self.count > self.limit:
             self.limit = self.OFF          # disarm before raising: handlers in the code under test must not re-trigger
             raise BudgetExceeded()
+
+    def run2(self, fn, budget):
+        """run(); a case that exceeds the budget is repeated once immediately in the same process and only exceeding it
+        AGAIN counts: one-time lazy initialisation inside the library (first-use tables, caches, imports) is charged to
+        whichever case triggers it first and is not input dependent; a sweep that does not terminate always exceeds."""
+        r = self.run(fn, budget)
+        if r[0] == "budget":
+            self.second_attempts += 1
+            r = self.run(fn, budget)
+        return r
 
     def run(self, fn, budget):
         """-> (status, value, events) like mc.budget.run_with_budget"""
@@ -258,12 +277,10 @@ class Env:
         self.dex = dex
         self.cm = StubCM(dex)
         self.Invalid = dex.InvalidInstruction
-        self.budget = BudgetSession(dex) if budget else None
-        self.budget_retries = 0
+        self.budget = BudgetSession(dex, only=SWEEP_ONLY if budget == "sweep-only" else None)
 
     def close(self):
-        if self.budget:
-            self.budget.close()
+        self.budget.close()
 
 
 def _safe(f):
@@ -312,17 +329,14 @@ def judge(env, buf, size):
         for ins in dex.LinearSweepAlgorithm.get_instructions(env.cm, size, buf, 0):
             got.append(ins)
 
-    status, val, events = env.budget.run(sweep, BUDGET0 + BUDGET1 * n)
-    if status == "budget":
-        # one-time lazy initialisation inside the library (first-use tables, caches, imports) is charged to whichever
-        # case triggers it first in a process and is not input dependent: repeat the same case once, immediately, in
-        # the same process; only exceeding the budget AGAIN counts (a sweep that does not terminate always does)
+    def sweep2():
         del got[:]
-        status, val, events = env.budget.run(sweep, BUDGET0 + BUDGET1 * n)
-        env.budget_retries += 1
+        sweep()
+
+    status, val, events = env.budget.run2(sweep2, BUDGET0 + BUDGET1 * n)
     v = []
     # ---- oracle (b): holds for every buffer
-    off = 0
+    off = last_off = 0
     for k, ins in enumerate(got):
         ln = _safe(ins.get_length)
         raw = _safe(ins.get_raw)
@@ -341,16 +355,25 @@ def judge(env, buf, size):
                       % (hx, _safe(ins.get_name), off, ln, n, raw.hex() if isinstance(raw, (bytes, bytearray)) else raw,
                          bytes(buf[off:off + ln]).hex())))
             break
+        last_off = off              # the last instruction that was in order (where a stuck sweep sits)
         off += ln
     if status == "budget":
-        v.append(("arbitrary:nontermination:%s" % classify_at(buf, off),
+        v.append(("arbitrary:nontermination:%s" % classify_at(buf, last_off),
                   "%s: sweep exceeded the budget of %d events" % (hx, BUDGET0 + BUDGET1 * n)))
     elif status == "exc" and not isinstance(val, env.Invalid):
         v.append(("arbitrary:exception:%s" % classify_at(buf, off),
                   "%s: sweep raised %s: %s after %d instructions (offset %d)" % (hx, type(val).__name__, val, len(got), off)))
     outcome = (status if status != "exc" else type(val).__name__, len(got), prob[0][1] if prob else "valid")
     if not v and not valid and status != "budget":
-        v += _second_call(env, buf, size, status, val, got, prob[0][1].split(":")[0] if prob else "nonstrict", hx)
+        cls = prob[0][1].split(":")[0] if prob else "nonstrict"
+        st2, r2, _ = env.budget.run2(lambda: _second_call(env, buf, size, status, val, got, cls, hx), 4 * (BUDGET0 + BUDGET1 * n))
+        if st2 == "budget":
+            v.append(("arbitrary:nontermination:second-call:%s" % cls, "%s: later requests on one DCode object exceeded %d events"
+                      % (hx, 4 * (BUDGET0 + BUDGET1 * n))))
+        elif st2 == "exc":
+            raise r2
+        else:
+            v += r2
     if not valid or v:
         if v and valid:
             v = [("valid:" + k.split(":", 1)[1], m) for k, m in v]
@@ -377,12 +400,23 @@ def judge(env, buf, size):
                           % (hx, len(got), off, len(listing), n))]
     if v:
         return outcome, v
-    # DCode view: same list, off_to_pos / get_ins_off for every byte offset
-    dc = dex.DCode(env.cm, 0, size, buf)
+    # DCode view: same list, off_to_pos / get_ins_off for every byte offset (the sweeps inside count against a budget)
+    st2, r2, _ = env.budget.run2(lambda: _dcode_view(env, buf, size, got, listing, hx), 4 * (BUDGET0 + BUDGET1 * n))
+    if st2 == "budget":
+        return outcome, [("valid:nontermination:dcode:%s" % (listing[0][3] if listing else "end"),
+                          "%s: DCode requests exceeded %d events" % (hx, 4 * (BUDGET0 + BUDGET1 * n)))]
+    if st2 == "exc":
+        raise r2
+    return outcome, r2
+
+
+def _dcode_view(env, buf, size, got, listing, hx):
+    n = len(buf)
+    dc = env.dex.DCode(env.cm, 0, size, buf)
     try:
         lst = list(dc.get_instructions())
         if [bytes(i.get_raw()) for i in lst] != [bytes(i.get_raw()) for i in got]:
-            return outcome, [("valid:dcode:list", "%s: DCode.get_instructions() differs from LinearSweepAlgorithm" % hx)]
+            return [("valid:dcode:list", "%s: DCode.get_instructions() differs from LinearSweepAlgorithm" % hx)]
         starts = {x[0]: k for k, x in enumerate(listing)}
         for o in range(n + 1):
             want = starts.get(o, -1)
@@ -390,14 +424,14 @@ def judge(env, buf, size):
             io = dc.get_ins_off(o)
             if pos != want or (io is not (lst[want] if want >= 0 else None)):
                 feat = listing[want][3] if want >= 0 else "between"
-                return outcome, [("valid:%s:off_to_pos" % feat, "%s: off_to_pos(%d)=%r get_ins_off -> %r; instruction index there: %d"
-                                  % (hx, o, pos, io, want))]
+                return [("valid:%s:off_to_pos" % feat, "%s: off_to_pos(%d)=%r get_ins_off -> %r; instruction index there: %d"
+                         % (hx, o, pos, io, want))]
         if [bytes(i.get_raw()) for i in dc.get_instructions()] != [bytes(i.get_raw()) for i in got]:
-            return outcome, [("valid:second-call:%s" % (listing[0][3] if listing else "end"),
-                              "%s: a later DCode.get_instructions() differs from the first" % hx)]
+            return [("valid:second-call:%s" % (listing[0][3] if listing else "end"),
+                     "%s: a later DCode.get_instructions() differs from the first" % hx)]
     except Exception as e:     # noqa
-        return outcome, [("valid:dcode:exception", "%s: DCode raised %s: %s" % (hx, type(e).__name__, e))]
-    return outcome, v
+        return [("valid:dcode:exception", "%s: DCode raised %s: %s" % (hx, type(e).__name__, e))]
+    return []
 
 
 # ----------------------------------------------------------------------------------- valid streams through a DEX file
@@ -461,11 +495,15 @@ def judge_dex(env, codes):
             feat0 = listing[0][3] if listing else "end"
 
             def call(api, fn):
-                try:
-                    return fn()
-                except Exception as e:     # noqa
-                    v.append(("valid:via-dex:%s:exception:%s" % (api, feat0), "%s: %s raised %s: %s" % (hx, api, type(e).__name__, e)))
-                    return None
+                st, r, _ = env.budget.run2(fn, BUDGET0 + BUDGET1 * len(code))
+                if st == "ok":
+                    return r
+                if st == "budget":
+                    v.append(("valid:via-dex:%s:nontermination:%s" % (api, feat0), "%s: %s exceeded %d events"
+                              % (hx, api, BUDGET0 + BUDGET1 * len(code))))
+                else:
+                    v.append(("valid:via-dex:%s:exception:%s" % (api, feat0), "%s: %s raised %s: %s" % (hx, api, type(r).__name__, r)))
+                return None
             if i % 2:                       # odd methods: the indexed view is the first (uncached) sweep
                 idx1 = call("get_instructions_idx", lambda: list(m.get_instructions_idx()))
                 first = call("get_instructions", lambda: list(m.get_instructions()))
@@ -840,14 +878,47 @@ def _run_dex(acc, env, codes):
         acc.violation(key, w, msg)
 
 
+class ShardBackstop(BaseException):
+    pass
+
+
+def _backstop(on):
+    """Harness safety net, not an oracle: every sweep runs under the event budget, but should some unbudgeted path of a
+    broken tree loop anyway, the worker must die as a HARNESS-ERROR instead of eating the machine."""
+    import multiprocessing
+    import resource
+    import signal
+    if multiprocessing.current_process().name == "MainProcess":
+        return
+    if on:
+        soft, hard = resource.getrlimit(resource.RLIMIT_AS)
+        lim = 6 << 30
+        resource.setrlimit(resource.RLIMIT_AS, (lim if hard == resource.RLIM_INFINITY else min(lim, hard), hard))
+
+        def boom(*_a):
+            raise ShardBackstop("shard still running after 1800 s")
+        signal.signal(signal.SIGALRM, boom)
+        signal.alarm(1800)
+    else:
+        signal.alarm(0)
+
+
 def run_shard(ctx, shard):
+    _backstop(True)
+    try:
+        return _run_shard0(ctx, shard)
+    finally:
+        _backstop(False)
+
+
+def _run_shard0(ctx, shard):
     if shard[0] == "hist":
         return _in_child(lambda: _run_shard(ctx, shard))
     return _run_shard(ctx, shard)
 
 
 def _run_shard(ctx, shard):
-    env = Env(budget=shard[0] != "dex")
+    env = Env(budget="sweep-only" if shard[0] == "dex" else True)
     acc = Acc()
     acc._oc = set()
     kind = shard[0]
@@ -938,16 +1009,17 @@ def _run_shard(ctx, shard):
     for o in acc._oc:
         acc.outcomes.add(h8(o))
     del acc._oc
-    if env.budget_retries:
-        acc.count("budget_second_attempts", env.budget_retries)
+    if env.budget.second_attempts:
+        acc.count("budget_second_attempts", env.budget.second_attempts)
     env.close()
     return acc
 
 
 def replay(ctx, w):
     if "via_dex" in w:
-        env = Env(budget=False)
+        env = Env(budget="sweep-only")
         res = judge_dex(env, [bytes.fromhex(x) for x in w["via_dex"]])
+        env.close()
         return "\n".join("%s: %s" % (k, m) for _, k, m in res) or None
     env = Env()
     if w.get("history") in HISTORIES:
